@@ -142,7 +142,11 @@ class Check:
             if kind == "opendir":
                 faults.append({"fail": {"call": "opendir", "path": d, "errno": rng.choice(errs)}})
             elif kind == "realpath_fail":
-                faults.append({"fail": {"call": "realpath", "path": d, "errno": rng.choice(["ENOENT", "EACCES"])}})
+                # the directory is gone / beyond an unsearchable component: every way of reaching it fails alike
+                # (a failing realpath alone would not make a directory unlistable: a walker need not canonicalise)
+                e = rng.choice(["ENOENT", "EACCES"])
+                for call in ("realpath", "opendir", "stat"):
+                    faults.append({"fail": {"call": call, "path": d, "errno": e}, "group": "unreachable:" + d})
             elif kind == "vanish_listed":
                 faults.append({"mutate": {"call": "dirent", "path": d, "nth": 1, "action": "rmtree", "target": d}})
             elif kind == "replaced_listed":
@@ -434,8 +438,11 @@ class Check:
                 return viols
             failed, mid, mutated = set(), set(), set()
             stat_failed = False
+            realpath_failed, opened_ok = set(), set()
             nm = gen.node_map(world)
             for l in res.log:
+                if " opendir " in l and l.endswith("-> ok"):
+                    opened_ok.add(as_world_path(l.split(" ")[2], l.split(" ")[3]))
                 m = _ERR.match(l)
                 if m:
                     p = as_world_path(m.group(2), m.group(3))
@@ -447,6 +454,8 @@ class Check:
                             stat_failed = True
                             if p in nm and nm[p]["type"] == "dir":
                                 failed.add(p)
+                    elif m.group(1) == "realpath":
+                        realpath_failed.add(p)
                     else:
                         failed.add(p)
                     continue
@@ -454,6 +463,8 @@ class Check:
                 if m:
                     g = unq(m.group(3))
                     mutated.add(g[3:] if g.startswith("$W/") else g)
+            # a failed canonicalisation counts as "could not be listed" only if the directory was not listed anyway
+            failed |= {p_ for p_ in realpath_failed if p_ not in opened_ok}
             # readdir lines carry the directory's node path as the first field
             mid = {("" if x == "." else x) for x in mid}
             hard = expected(failed | mutated)
